@@ -6,6 +6,11 @@ import Driver.Csg
 import Driver.Dsu
 import Driver.HashT
 import Driver.CBind
+import Driver.Ctor
+import Driver.Cow
+import Driver.Sweep2
+import Driver.Export
+import Driver.Progress
 /-! `mvdriver`: reads one request per line on stdin, prints one answer per line.
 First token = engine. -/
 
@@ -19,6 +24,11 @@ def dispatch (line : String) : String :=
   | "dsu" :: rest => Dsu.handle rest
   | "hash" :: rest => HashT.handle rest
   | "cbind" :: rest => CBindDrv.handle rest
+  | "ctor" :: rest => Ctor.handle rest
+  | "cow" :: rest => Cow.handle rest
+  | "sweep2" :: rest => Sweep2.handle rest
+  | "export" :: rest => ExportDrv.handle rest
+  | "progress" :: rest => ProgressDrv.handle rest
   | _ => "bad-engine"
 
 partial def loop (h : IO.FS.Stream) (out : IO.FS.Stream) : IO Unit := do
